@@ -98,15 +98,16 @@ class Value:
 
         # Whether _value is "the list of results" is remembered, not guessed
         # from its type: a result may be a list itself.
-        if self.result and self._several:
+        # (not from `result` either: the nested Value of an event that has not
+        # been handled yet, returned by a handler, clears it.)
+        if self._several:
             self._value.append(value)
-        elif self.result:
+        elif self.result or self._value is not None:
             self._value = [self._value]
             self._value.append(value)
             self._several = True
         else:
             self._value = value
-            self._several = False
 
         def update(o, v):
             if isinstance(v, Value):
